@@ -65,6 +65,11 @@ pub struct Fired {
     pub std_stream_failed: bool,
     /// an advisory lock was refused (another process "holds" it)
     pub lock_refused: bool,
+    /// pthread_create was refused
+    pub thread_refused: bool,
+    /// reads of standard input answered EAGAIN for a while (a stalled writer on a non-blocking
+    /// pipe): the tool may give up with an I/O error or wait and read everything
+    pub stdin_eagain: bool,
     /// getcwd() failed (the current directory was deleted)
     pub cwd_failed: bool,
     /// a catchable signal was delivered mid-run (counts as `crashed` for the expectations)
@@ -145,6 +150,8 @@ pub fn fired(trace: &[TraceEvent]) -> Fired {
                 f.signalled = true;
             }
             "getcwd" => f.cwd_failed = true,
+            "thread" => f.thread_refused = true,
+            "eagain_read" if ev.ret < 0 && ev.target == "@0" => f.stdin_eagain = true,
             "flock" if ev.ret < 0 => f.lock_refused = true,
             _ => {}
         }
